@@ -20,15 +20,18 @@
     cancel_no_poison               proved (decision logic of poison::Flag::done + the model fact it is applied to)
     cancel_forwards_mutex_*        = the hand-over theorems of C05 (imported, not re-proved)
 
-  TODO (work packages that do not exist yet; add `cancel_forwards_*` by importing their Props, no proofs here):
-    * semaphore   — C10 `gate_permits_conserved` / hand-over under cancellation of Semphore::wait
-    * condvar     — C11 `cv_notify_one_wakes_one` with a cancelled waiter (notification passed on)
-    * rwlock      — C12 inner gate hand-over
-    * channels / join / select / socket waits — C06, C01, C16, C18 with the canceller as an extra actor
+    cancel_forwards_sem_* / cancel_forwards_condvar_* / cancel_forwards_rwlock_*
+                                   = the hand-over theorems of C10 / C11 / C12 (imported, not re-proved): their models contain
+                                   the cancellation of a waiter (`Env.abort` / `Env.cancel` at the park) at every point
+  Not covered here: channels / join / select / socket waits with the canceller as an extra actor (C06, C01, C16, C18 have
+  their own cancel scenarios where their API is a cancellation point)
     * "every value owned by its stack is dropped exactly once": rustc's unwinding, an oracle in the harness (drop counters)
 -/
 import MayVerif.Proof.Runtime.Cancel.Bd
 import MayVerif.Props.C05
+import MayVerif.Props.C10
+import MayVerif.Props.C11
+import MayVerif.Props.C12
 namespace MayVerif.C09
 open MayVerif.Cancel
 
@@ -357,5 +360,47 @@ example :
       [(0, .startLock), (0, .go), (1, .startLock), (1, .go), (1, .go), (1, .go), (0, .unlock), (0, .go), (0, .go), (0, .go), (0, .go), (0, .go),
        (1, .abort), (1, .go), (1, .go)]
     s.sh.aph 0 = .a5 ∧ s.sh.vph 0 = .v4 ∧ s.sh.duty 0 = true ∧ s.sh.dup = false ∧ s.sh.cnt = 1 := by decide
+
+/-! ### cancel_forwards (Semphore, Condvar, RwLock)
+
+  The same two-flag hand-over protects a permit / a notification / the inner gate of the RwLock when the waiter it was
+  handed to is cancelled (or times out) at the same moment. The models of C10, C11 and C12 contain that cancellation at
+  every point of the wait (`Env.abort` at the park, `Env.cancel` for the condvar's error kind), for every number of actors
+  and every interleaving; their theorems are re-exported here under the name the property uses ("a permit, lock hand-off
+  or notification that raced with the cancellation is passed on to another waiter"). -/
+
+/-- Semphore: the permit handed to a cancelled waiter is re-posted by at most one of the two sides … -/
+theorem cancel_forwards_sem_at_most_once (n i : Nat) (sched : List (Nat × Sem.Env)) :
+    (Sem.run (Sem.init n i) sched).sh.dup = false :=
+  Sem.sem_handoff_at_most_once n i sched
+
+/-- … and once both sides are through, one of them HAS committed to re-post it: it is neither duplicated nor lost. -/
+theorem cancel_forwards_sem_committed (n i : Nat) (sched : List (Nat × Sem.Env)) (b : Nat)
+    (ha : (Sem.run (Sem.init n i) sched).sh.aph b = .a5) (hv : (Sem.run (Sem.init n i) sched).sh.vph b = .v4) :
+    (Sem.run (Sem.init n i) sched).sh.duty b = true :=
+  Sem.sem_handoff_committed n i sched b ha hv
+
+/-- Condvar: a notification is forwarded at most once (`dup = false`), and only for a waiter that really was picked by a
+    notifier and had left the wait (`unparked`, past `a0`): a cancelled waiter that swallowed a notification passes it on,
+    one that did not get one forwards nothing. -/
+theorem cancel_forwards_condvar_at_most_once (n : Nat) (sched : List (Nat × Condvar.Env)) :
+    (Condvar.run (Condvar.init n) sched).sh.dup = false :=
+  Condvar.cv_forward_at_most_once n sched
+
+theorem cancel_forwards_condvar_only_if_due (n : Nat) (sched : List (Nat × Condvar.Env)) (b : Nat)
+    (h : (Condvar.run (Condvar.init n) sched).sh.duty b = true) :
+    (Condvar.run (Condvar.init n) sched).sh.unparked b = true ∧ (Condvar.run (Condvar.init n) sched).sh.aph b ≠ .a0 :=
+  Condvar.cv_forward_only_if_due n sched b h
+
+/-- RwLock: both inner gates (the writer gate `g` and the reader-count lock `rl`) hand over at most once, and a hand-over
+    of the writer gate that raced with a cancellation is committed by one side. -/
+theorem cancel_forwards_rwlock_at_most_once (n : Nat) (p : Bool) (sched : List (Nat × RwLock.Env)) :
+    (RwLock.run (RwLock.init n p) sched).sh.g.dup = false ∧ (RwLock.run (RwLock.init n p) sched).sh.rl.dup = false :=
+  RwLock.rwlock_handoff_at_most_once n p sched
+
+theorem cancel_forwards_rwlock_committed (n : Nat) (p : Bool) (sched : List (Nat × RwLock.Env)) (b : Nat)
+    (ha : (RwLock.run (RwLock.init n p) sched).sh.g.aph b = .a5) (hv : (RwLock.run (RwLock.init n p) sched).sh.g.vph b = .v4) :
+    (RwLock.run (RwLock.init n p) sched).sh.g.duty b = true :=
+  RwLock.rwlock_handoff_committed n p sched b ha hv
 
 end MayVerif.C09
